@@ -658,10 +658,15 @@ def pre_check(pid):
     if pid == "C20":
         data = bytes(range(1, 41))
         src = BufferAudioSource(data, 10, 2, 1)
-        for upto in (3, None):
+        for upto in (3, None, "past-the-end"):
             src.open()
             first = src.read(4)
-            src.read(upto)
+            if upto == "past-the-end":
+                while src.read(5) is not None:      # until the source itself says nothing is left
+                    pass
+                src.read(1)
+            else:
+                src.read(upto)
             src.close()
             src.open()
             again = src.read(4)
